@@ -250,9 +250,11 @@ func decryptSymmetricAEAD(aead cipher.AEAD, ciphertext []byte, nonce []byte, tag
 		return nil, ErrInvalidTag
 	}
 
-	// Add the tag at the end of the ciphertext
-	ciphertext = append(ciphertext, tag...)
-	return aead.Open(nil, nonce, ciphertext, associatedData)
+	// Add the tag at the end of the ciphertext (in a new slice, so the caller's memory is not written to)
+	sealed := make([]byte, 0, len(ciphertext)+len(tag))
+	sealed = append(sealed, ciphertext...)
+	sealed = append(sealed, tag...)
+	return aead.Open(nil, nonce, sealed, associatedData)
 }
 
 func encryptSymmetricAESKW(plaintext []byte, algorithm string, key []byte) (ciphertext []byte, err error) {
@@ -310,9 +312,11 @@ func decryptSymmetricChaCha20Poly1305(ciphertext []byte, algorithm string, key [
 		return nil, ErrInvalidTag
 	}
 
-	// Add the tag at the end of the ciphertext
-	ciphertext = append(ciphertext, tag...)
-	return aead.Open(nil, nonce, ciphertext, associatedData)
+	// Add the tag at the end of the ciphertext (in a new slice, so the caller's memory is not written to)
+	sealed := make([]byte, 0, len(ciphertext)+len(tag))
+	sealed = append(sealed, ciphertext...)
+	sealed = append(sealed, tag...)
+	return aead.Open(nil, nonce, sealed, associatedData)
 }
 
 func getChaCha20Poly1305Cipher(algorithm string, key []byte, nonce []byte) (aead cipher.AEAD, err error) {
